@@ -40,6 +40,22 @@ fn main() {
         println!("{}", serde_json::json!({"ok": true, "display": format!("{}", e)}));
         return;
     }
+    if case["kind"].as_str() == Some("envelope_roundtrip") {
+        // C15: a response body through Response<Value>: parse, serialize, parse again
+        let body = case["body"].as_str().unwrap_or("");
+        let parsed: Result<graphql_client::Response<serde_json::Value>, _> = serde_json::from_str(body);
+        match parsed {
+            Err(e) => println!("{}", serde_json::json!({"ok": false, "error": e.to_string()})),
+            Ok(r) => {
+                let text = serde_json::to_string(&r).unwrap();
+                let again: Result<graphql_client::Response<serde_json::Value>, _> = serde_json::from_str(&text);
+                let same = matches!(&again, Ok(r2) if *r2 == r);
+                println!("{}", serde_json::json!({"ok": true, "reserialized": serde_json::from_str::<serde_json::Value>(&text).unwrap(), "same_after_round_trip": same,
+                    "debug": format!("{:?}", r)}));
+            }
+        }
+        return;
+    }
     let dir = case["workdir"].as_str().unwrap_or("/verif/.work/replay-files").to_string();
     std::fs::create_dir_all(&dir).unwrap();
     // a history of calls (C08) or a single call
